@@ -572,3 +572,46 @@ func (s *shortReads) Read(p []byte) (int, error) {
 	}
 	return s.r.Read(p[:n])
 }
+
+// stutterReader returns (0, nil) on every other call - allowed by io.Reader, if discouraged - and at most frag bytes otherwise.
+type stutterReader struct {
+	r    io.Reader
+	frag int
+	i    int
+}
+
+func (s *stutterReader) Read(p []byte) (int, error) {
+	s.i++
+	if s.i%2 == 1 {
+		return 0, nil
+	}
+	if len(p) > s.frag {
+		p = p[:s.frag]
+	}
+	return s.r.Read(p)
+}
+
+// A source that makes no progress on every other call, hundreds of times in the course of one build but never twice in a
+// row: the same bytes, the same link and size.
+func TestC10_R_SourceWithEmptyReads(t *testing.T) {
+	for _, c := range []struct {
+		n       int
+		chunker string
+		w       int
+	}{{3 << 20, "", 174}, {5000, "size-7", 3}, {100000, "rabin-64-128-256", 174}} {
+		data := lcgBytes(c.n, 9, 0)
+		want, wsz, err := buildFile(NewStore(), data, c.chunker, c.w)
+		if err != nil {
+			t.Fatal(err)
+		}
+		for _, frag := range []int{1 << 20, 65536, 16384, 1000, 13} {
+			if c.n/frag > 20000 {
+				continue
+			}
+			got, gsz, err := buildFileR(NewStore().LinkSystem(), &stutterReader{r: bytes.NewReader(data), frag: frag}, c.chunker, c.w)
+			if err != nil || got != want || gsz != wsz {
+				t.Fatalf("C10: %d bytes (chunker %q) from a source delivering %d-byte fragments with an empty read before each: %s / %d (err %v), from a plain reader %s / %d", c.n, c.chunker, frag, got, gsz, err, want, wsz)
+			}
+		}
+	}
+}
